@@ -117,8 +117,8 @@ class Concretiser:
             while txt in self.used and len(str(d)) - 1 < full:
                 n, d = n * 10, d * 10
                 txt = dec_text(n, d)
-            if txt in self.used:
-                raise ValueError('no further spelling of decimal ' + txt)
+            while txt in self.used:
+                txt = ('-0' + txt[1:]) if txt.startswith('-') else ('0' + txt)      # leading zeros: parsed alike, printed without
             return txt
         if role == 'decimal':
             return self.fresh('notanumber%d')
@@ -200,7 +200,12 @@ class Concretiser:
                     n, d = n // 10, d // 10
                 return dec_text(n, d)
             if dn == 'deccanon':
-                return self.term_string(t.arg(0), 'price')
+                txt = self.term_string(t.arg(0), 'price')
+                neg = txt.startswith('-')
+                body = txt.lstrip('-').lstrip('0')
+                if body.startswith('.') or body == '':
+                    body = '0' + body
+                return ('-' if neg else '') + body
         v = self.val(t)
         if v in self.text:
             return self.text[v]
